@@ -731,3 +731,93 @@ pub fn compile(src: &str, mode: uiua::PreEvalMode) -> Result<Assembly, String> {
         Err(p) => Err(format!("PANIC: {p}")),
     }
 }
+
+// ---------------------------------------------------------------- program generator (spine)
+
+/// generator of integer-only programs over the modelled spine (execution order, then reversed)
+pub struct PGen {
+    pub fns: Vec<String>,
+}
+
+const MONADIC: [&str; 5] = ["¯", "¬", "⌵", "±", "∘"];
+// "=" is left out: after a name it would be read as a binding arrow
+const DYADIC: [&str; 10] = ["+", "-", "×", "<", ">", "≠", "≤", "≥", "↥", "↧"];
+
+impl PGen {
+    /// a function body as source text (right-to-left), roughly `len` items
+    pub fn body(&mut self, r: &mut Rng, depth: usize, len: usize) -> String {
+        let mut items: Vec<String> = Vec::new(); // in execution order
+        for _ in 0..len {
+            let k = r.below(100);
+            let it = if k < 22 {
+                format!("{}", r.range(0, 4))
+            } else if k < 34 {
+                r.pick(&MONADIC).to_string()
+            } else if k < 52 {
+                r.pick(&DYADIC).to_string()
+            } else if k < 58 {
+                r.pick(&[".", ":", "◌"]).to_string()
+            } else if k < 62 {
+                // assertion: fails unless the value under the message is 1
+                "⍤\"x\"".to_string()
+            } else if k < 66 && !self.fns.is_empty() {
+                let i = r.below(self.fns.len());
+                format!("F{}", (b'a' + i as u8) as char)
+            } else if depth == 0 {
+                format!("{}", r.range(0, 3))
+            } else if k < 90 {
+                let m = *r.pick(&["⊙", "⋅", "⟜", "⊸", "⤙", "⤚", "◡", "∩", "⍩"]);
+                let l = 1 + r.below(3);
+                format!("{m}({})", self.body(r, depth - 1, l))
+            } else if k < 96 {
+                let m = *r.pick(&["⊃", "⊓", "⍣"]);
+                let (l1, l2) = (1 + r.below(3), 1 + r.below(3));
+                format!("{m}({})({})", self.body(r, depth - 1, l1), self.body(r, depth - 1, l2))
+            } else {
+                let (l1, l2) = (1 + r.below(3), 1 + r.below(3));
+                format!("⨬({}|{})", self.body(r, depth - 1, l1), self.body(r, depth - 1, l2))
+            };
+            items.push(it);
+        }
+        items.reverse();
+        items.join(" ")
+    }
+    pub fn program(&mut self, r: &mut Rng) -> String {
+        self.fns.clear();
+        let mut src = String::new();
+        let nf = r.below(3);
+        for i in 0..nf {
+            let l = 1 + r.below(4);
+            let b = self.body(r, 2, l);
+            src.push_str(&format!("F{} ← {}\n", (b'a' + i as u8) as char, b));
+            self.fns.push(b);
+        }
+        let l = 2 + r.below(6);
+        let main = self.body(r, 3, l);
+        let lits: Vec<String> = (0..6).map(|_| format!("{}", r.range(0, 3))).collect();
+        src.push_str(&format!("{} {}\n", main, lits.join(" ")));
+        src
+    }
+}
+
+pub fn ints_of(vs: &[uiua::Value]) -> Option<Vec<i64>> {
+    let mut out = Vec::new();
+    for v in vs {
+        if v.rank() != 0 {
+            return None;
+        }
+        match v {
+            uiua::Value::Num(a) => {
+                let x = *a.elements().next()?;
+                if x.fract() != 0.0 || x.abs() > 1e15 {
+                    return None;
+                }
+                out.push(x as i64)
+            }
+            uiua::Value::Byte(a) => out.push(*a.elements().next()? as i64),
+            _ => return None,
+        }
+    }
+    Some(out)
+}
+
